@@ -63,6 +63,26 @@ Theorem C23_csch_acsch : forall x : R, x <> 0%R -> nbt_csch (nbt_acsch x) = x.
 Proof. exact csch_acsch. Qed.
 Print Assumptions C23_csch_acsch.
 
+Theorem C23_sec_arcsec : forall x : R, (1 <= x \/ x <= -1)%R -> nbt_secant (nbt_arcsecant x) = x.
+Proof. exact sec_arcsec. Qed.
+Print Assumptions C23_sec_arcsec.
+
+Theorem C23_csc_acsc : forall x : R, (1 <= x \/ x <= -1)%R -> nbt_csc (nbt_acsc x) = x.
+Proof. exact csc_acsc. Qed.
+Print Assumptions C23_csc_acsc.
+
+(* core::functions sqrt(x) = x^(1/2) and sqr(x) = x^2 on non-negative reals *)
+Theorem C23_sqrt_sqr : forall x : R, (0 <= x)%R ->
+  nbt_sqrt (nbt_sqr x) = x /\ nbt_sqr (nbt_sqrt x) = x.
+Proof. exact sqrt_sqr_inv. Qed.
+Print Assumptions C23_sqrt_sqr.
+
+(* core::functions cbrt(x) = if x > 0 then x^(1/3) else -(-x)^(1/3), both signs (x = 0 excluded:
+   Rpower 0 y = 1 is an artefact of Coq's real-number library) *)
+Theorem C23_cbrt_cube : forall x : R, x <> 0%R -> nbt_cbrt (x ^ 3) = x.
+Proof. exact cbrt_cube. Qed.
+Print Assumptions C23_cbrt_cube.
+
 (* splitting a quantity into a list of units: the parts add up to the original ... *)
 Theorem C23_mixed_sum : forall units val acc l,
   mixed_unit_list val units acc = Some l -> qsum l == qsum acc + val.
@@ -75,6 +95,13 @@ Theorem C23_mixed_whole : forall units val acc l,
   exists parts, l = acc ++ parts /\ length parts = length units /\ whole_but_last units parts.
 Proof. exact mixed_whole. Qed.
 Print Assumptions C23_mixed_whole.
+
+(* unit_list(units, value), i.e. _mixed_unit_list on unique |> sort-descending of ANY unit
+   list: the parts add up to the value, one part per distinct unit, all but the last whole *)
+Theorem C23_unit_list : forall units value l, unit_list units value = Some l ->
+  qsum l == value /\ length l = length (clean_units units) /\ whole_but_last (clean_units units) l.
+Proof. exact unit_list_spec. Qed.
+Print Assumptions C23_unit_list.
 
 (* Non-vacuity *)
 Example C23_ex_temperature :
@@ -92,5 +119,6 @@ Proof. vm_compute. reflexivity. Qed.
 Example C23_ex_mixed :
   mixed_unit_list ((55 # 10) * (3048 # 10000)) [(3048 # 10000); (254 # 10000)] []
   = Some [inject_Z 5 * (3048 # 10000); ((55 # 10) * (3048 # 10000) - inject_Z 5 * (3048 # 10000))]
-  /\ mixed_unit_list 1 [] [] = None.
-Proof. vm_compute. split; reflexivity. Qed.
+  /\ mixed_unit_list 1 [] [] = None
+  /\ clean_units [(254 # 10000); (3048 # 10000); (254 # 10000); 1] = [1; (3048 # 10000); (254 # 10000)].
+Proof. vm_compute. repeat split; reflexivity. Qed.
